@@ -88,7 +88,7 @@ structure GenCfg where
   /-- `true` (original emitter): a typed-nil root (`(*T)(nil)`, a `**T` whose target is nil, a nil `**T`)
       is dereferenced by every method; DeepEqual tests typed-nil `*T` roots itself (`lx == nil`) but
       dereferences a nil `**T` in its header (`lx, leq = *lp, true`). -/
-  nilRootPanics : Bool := true
+  nilRootPanics : Bool := false   -- repaired in /repo (fix: typed-nil roots …)
   /-- `true` (original library): Assign/AssignBuf (hence Set) dereference a nil pointer passed as the
       source value (`*src.(*int)` in every arm of the type switches). -/
   assignNilSrcPanics : Bool := true
@@ -101,7 +101,7 @@ deriving Repr, Inhabited
 /-- The configuration that mirrors the tree as it is (flags flip when a `fix:` commit lands). -/
 def GenCfg.repo : GenCfg := {}
 /-- The tree as it was at the pinned commit (1c76ae3), before the `fix:` commits in /repo. -/
-def GenCfg.original : GenCfg := { GenCfg.repo with strAppendsOld := true, negIndexPanics := true, loopRootMapSkipped := true, loopNilKeyPanics := true }
+def GenCfg.original : GenCfg := { GenCfg.repo with strAppendsOld := true, negIndexPanics := true, loopRootMapSkipped := true, loopNilKeyPanics := true, nilRootPanics := true }
 /-- Every listed defect repaired: the configuration the property theorems are proved for. -/
 def GenCfg.fixed : GenCfg where
   fallThroughAlways := false
